@@ -425,6 +425,30 @@ impl Gen<'_> {
         f
     }
 
+    /// A re-inserted duplicate occasionally gets a different operator of the same kind at its root
+    /// (EU/EW/AU/AW, EX/AX, EF/AF, EG/AG, bind/exists/forall): sub-formulae that differ ONLY in one
+    /// operator must not be confused with each other by anything that identifies sub-formulae.
+    fn maybe_sibling(&mut self, f: F) -> F {
+        if !self.rng.chance(1, 4) {
+            return f;
+        }
+        match f {
+            F::Un(op, a) if op != Un::Not => {
+                let c: Vec<Un> = self.opts.un_ops.iter().copied().filter(|o| *o != op && *o != Un::Not).collect();
+                if c.is_empty() { F::Un(op, a) } else { F::Un(*self.rng.pick(&c), a) }
+            }
+            F::Bin(op, a, b) => {
+                let c: Vec<Bin> = self.opts.bin_ops.iter().copied().filter(|o| *o != op && o.is_temporal() == op.is_temporal()).collect();
+                if c.is_empty() { F::Bin(op, a, b) } else { F::Bin(*self.rng.pick(&c), a, b) }
+            }
+            F::Hyb(op, v, d, a) if op != Hyb::Jump => {
+                let c: Vec<Hyb> = [Hyb::Bind, Hyb::Exists, Hyb::Forall].into_iter().filter(|o| *o != op).collect();
+                F::Hyb(*self.rng.pick(&c), v, d, a)
+            }
+            other => other,
+        }
+    }
+
     fn go_inner(&mut self, size: usize, scope: &mut Vec<String>) -> F {
         if size <= 1 {
             return self.atom(scope);
@@ -437,12 +461,13 @@ impl Gen<'_> {
             let bound_clash = bound_names(&cand).iter().any(|b| scope.contains(b));
             if depth_ok && !bound_clash {
                 if fv.is_empty() {
-                    return cand;
+                    return self.maybe_sibling(cand);
                 } else if fv.len() == 1 && !scope.is_empty() {
                     let target = self.rng.pick(scope).clone();
                     let from = fv[0].clone();
                     if !bound_names(&cand).contains(&target) {
-                        return cand.rename_vars(&|v| if v == from { target.clone() } else { v.to_string() });
+                        let renamed = cand.rename_vars(&|v| if v == from { target.clone() } else { v.to_string() });
+                        return self.maybe_sibling(renamed);
                     }
                 } else if fv.len() == 2 && scope.len() >= 2 {
                     // two free variables: re-insert under a random injective renaming, which includes the
